@@ -2356,3 +2356,163 @@ ITER_KINDS.update({'FilterMapIter', 'ChainIter', 'ZipIter', 'TakeWhileIter', 'Sk
 for _i, (_rx, _fn) in enumerate(PATTERN_PRIMS):
     if _rx.pattern == r'^<.* as Iterator>::next$':
         PATTERN_PRIMS[_i] = (_rx, lambda ex, a: iter_next(ex, a[0]))
+
+
+# ------------------------------------------------------------------ integer methods (usize semantics: 0 .. 2^64-1)
+_UMAX = (1 << 64) - 1
+
+
+def _cint(x):
+    if is_sym(x):
+        raise Unsupported('integer method on a symbolic value')
+    return x
+
+
+@prim('num::saturating_sub')
+def _(ex, a):
+    return max(_cint(a[0]) - _cint(a[1]), 0)
+
+
+@prim('num::saturating_add')
+def _(ex, a):
+    return min(_cint(a[0]) + _cint(a[1]), _UMAX)
+
+
+@prim('num::saturating_mul')
+def _(ex, a):
+    return min(_cint(a[0]) * _cint(a[1]), _UMAX)
+
+
+@prim('num::wrapping_sub')
+def _(ex, a):
+    return (_cint(a[0]) - _cint(a[1])) & _UMAX
+
+
+@prim('num::wrapping_add')
+def _(ex, a):
+    return (_cint(a[0]) + _cint(a[1])) & _UMAX
+
+
+@prim('num::checked_sub')
+def _(ex, a):
+    r = _cint(a[0]) - _cint(a[1])
+    return Some(r) if r >= 0 else NONE()
+
+
+@prim('num::checked_add')
+def _(ex, a):
+    r = _cint(a[0]) + _cint(a[1])
+    return Some(r) if r <= _UMAX else NONE()
+
+
+@prim('num::checked_mul')
+def _(ex, a):
+    r = _cint(a[0]) * _cint(a[1])
+    return Some(r) if r <= _UMAX else NONE()
+
+
+@prim('num::checked_div')
+def _(ex, a):
+    return NONE() if _cint(a[1]) == 0 else Some(_cint(a[0]) // a[1])
+
+
+@prim('num::abs_diff')
+def _(ex, a):
+    return abs(_cint(a[0]) - _cint(a[1]))
+
+
+@prim('num::pow')
+def _(ex, a):
+    r = _cint(a[0]) ** _cint(a[1])
+    if r > _UMAX:
+        raise RustPanic('attempt to multiply with overflow')
+    return r
+
+
+@prim('num::is_power_of_two')
+def _(ex, a):
+    x = _cint(a[0])
+    return x > 0 and (x & (x - 1)) == 0
+
+
+@prim('num::next_power_of_two')
+def _(ex, a):
+    x = max(_cint(a[0]), 1)
+    return 1 << (x - 1).bit_length()
+
+
+@prim('cmp::min', 'Ord::min', '<usize as Ord>::min', 'cmp::max', 'Ord::max', '<usize as Ord>::max')
+def _(ex, a):
+    raise Unsupported('min/max dispatch')
+
+
+def _mk_minmax(ismax):
+    def f(ex, a):
+        x, y = a[0], a[1]
+        if is_sym(x) or is_sym(y):
+            c = ex.branch(x >= y)
+            return (x if c else y) if ismax else (y if c else x)
+        return max(x, y) if ismax else min(x, y)
+    return f
+
+
+for _n in ('cmp::max', 'Ord::max', '<usize as Ord>::max', '<i64 as Ord>::max'):
+    P[_n] = _mk_minmax(True)
+for _n in ('cmp::min', 'Ord::min', '<usize as Ord>::min', '<i64 as Ord>::min'):
+    P[_n] = _mk_minmax(False)
+
+
+# ------------------------------------------------------------------ size_hint and std's Vec::from_iter
+def iter_size_hint(ex, itref):
+    """lower bound as std would compute it; calls a user-defined size_hint of a gdsl iterator (its MIR) when there is one"""
+    it = ex.deref(itref)
+    k = it.kind
+    sub = lambda i: Ref(itref.cell, tuple(itref.path) + (('f', i),))
+    if k == 'SliceIter':
+        r, pos, end = it.f
+        n = len(ex.deref(r).f) if end is None else end
+        return max(n - pos, 0)
+    if k == 'VecIntoIter':
+        return len(it.f)
+    if k in ('MapIter', 'Enumerate', 'ClonedIter', 'RevIter', 'PeekIter'):
+        return iter_size_hint(ex, sub(0))
+    if k in ('FilterIter', 'FilterMapIter', 'TakeWhileIter', 'SkipWhileIter'):
+        iter_size_hint(ex, sub(0))          # std asks the inner iterator for its upper bound
+        return 0
+    if k == 'HashIter':
+        return len(it.f[1])
+    if k.startswith(FLAVOURS):
+        fl = k.split('::')[0]
+        cands = ex.ix.methods.get((fl, k.split('::')[-1], 'size_hint'), [])
+        if cands:
+            r = ex.call_fn(cands[0][0], [itref])
+            return r.f[0]
+        return 0
+    return 0
+
+
+def std_collect(ex, itval):
+    """alloc::vec::Vec::from_iter for a general iterator: first element, size_hint, then push with reserve on demand"""
+    c = Cell(itval)
+    r = iter_next(ex, Ref(c))
+    if r.variant == 0:
+        ex.drop(c.v)
+        return []
+    lower = iter_size_hint(ex, Ref(c))
+    cap = max(4, lower + 1)
+    out = [r.f[0]]
+    while True:
+        r = iter_next(ex, Ref(c))
+        if r.variant == 0:
+            break
+        if len(out) == cap:
+            lower = iter_size_hint(ex, Ref(c))
+            cap = max(cap * 2, len(out) + lower + 1)
+        out.append(r.f[0])
+    ex.drop(c.v)
+    return out
+
+
+for _i, (_rx, _fn) in enumerate(PATTERN_PRIMS):
+    if _rx.pattern == r'^<.* as Iterator>::collect$':
+        PATTERN_PRIMS[_i] = (_rx, lambda ex, a: Agg('Vec', std_collect(ex, a[0])))
